@@ -39,6 +39,7 @@ META = {
 }
 
 PROGS = []
+TWO_LEVEL = {}
 
 
 def _w(i):
@@ -205,6 +206,30 @@ def run(chk):
                 posts = [(LOG("x"), SETV("x"), LOG("x"), LOG("y"))]
                 for prog in sc.spine_programs(list(levels), [()], posts, inner):
                     PROGS.append(tuple(m(v) for m in mod_pre) + prog + (("log", "x"), ("log", "y")))
+    # the name is declared at two levels: a function that declares x (global or nonlocal) - and maybe assigns it - does not bind x, so
+    # a (nonlocal x) in a function nested in it looks further out (an enclosing function, a let, or the module-level variable)
+    TWO_LEVEL.clear()
+    for outer in ("", "let", "fn", "fn+let"):
+        for decl1 in ("nonlocal", "global"):
+            for assign1 in (True, False):
+                for mid in ("", "let y", "let x", "fn"):
+                    for decl2 in ("nonlocal", "global"):
+                        for mod_x in (True, False):
+                            v = sc.Vals()
+                            inner = ("fn", ((decl2, "x"), ("setv", "x", v()), ("log", "x")))
+                            if mid.startswith("let"):
+                                inner = ("let", ((mid[4:], v()),), (inner, ("log", "x")))
+                            elif mid == "fn":
+                                inner = ("fn", (inner, ("log", "x")))
+                            f1 = ("fn", ((decl1, "x"),) + ((("setv", "x", v()),) if assign1 else ()) + (inner, ("log", "x")))
+                            body = (f1, ("log", "x"))
+                            if outer.endswith("let"):
+                                body = (("let", (("x", v()),), body),)
+                            if outer.startswith("fn"):
+                                body = (("fn", (("setv", "x", v()),) + body + (("log", "x"),)),)
+                            prog = ((("setv", "x", v()),) if mod_x else ()) + body + (("log", "x"),)
+                            TWO_LEVEL[len(PROGS)] = f"{decl1} in a function{' that assigns the name' if assign1 else ''}, then {decl2} in a function nested in it"
+                            PROGS.append(prog)
     import gc; gc.collect(); gc.freeze()  # forked workers then touch (copy) far fewer pages
     with mp.get_context("fork").Pool(chk.jobs) as pool:
         res = core.pmap(pool, _w, range(len(PROGS)), chunksize=128)
@@ -240,6 +265,8 @@ def run(chk):
                     return True
             return False
         key = shape(prog) + (" (a class body assigns a name bound by an enclosing let)" if class_assigns_let_name(prog) else "")
+        if i in TWO_LEVEL:
+            key = "declared at two levels: " + TWO_LEVEL[i]
         st = per.setdefault(key, [0, None])
         st[0] += 1
         if not ok and st[1] is None:
